@@ -805,3 +805,346 @@ func (c *Ctx) checkReadTransportWrite(rule string) {
 	c.check(okW, rule, key, fn.Pos(), "Write replaces the read buffer with exactly the bytes given",
 		"TBufferedReadTransport.Write does not replace the buffered bytes with its argument (it appends to what is left over, or ignores the argument): after a datagram that was not consumed completely the next one is decoded from the middle of stale bytes")
 }
+
+// ---- header sequences ---------------------------------------------------------------------------------
+//
+// checkHeaderSequences (O5): for the struct-field, list, set and message headers of both protocols the
+// sequences of wire primitives written on the error-free paths of WriteXBegin equal, as a set, the
+// sequences read on the error-free paths of ReadXBegin (byte, i16, i32, varint32, string body, ...).
+// A component dropped, added, reordered or widened on one side only changes one of the two sets.
+
+func primToken(name string) string {
+	switch name {
+	case "writeByteDirect", "readByteDirect", "WriteByte", "ReadByte":
+		return "byte"
+	case "writeVarint32", "readVarint32":
+		return "v32"
+	case "writeVarint64", "readVarint64":
+		return "v64"
+	case "WriteI16", "ReadI16":
+		return "i16"
+	case "WriteI32", "ReadI32":
+		return "i32"
+	case "WriteI64", "ReadI64":
+		return "i64"
+	case "WriteDouble", "ReadDouble":
+		return "f64"
+	case "WriteString", "ReadString", "WriteBinary", "ReadBinary":
+		return "str"
+	case "readStringBody":
+		return "body"
+	}
+	return ""
+}
+
+// primSequences enumerates the primitive sequences of the error-free paths of fn (nil when fn has
+// loops or too many paths).
+func (c *Ctx) primSequences(fn *ssa.Function, depth int) ([][]string, bool) {
+	if fn == nil || fn.Blocks == nil || depth < 0 || len(loopsOf(fn)) > 0 {
+		return nil, false
+	}
+	errT := types.Universe.Lookup("error").Type()
+	var out [][]string
+	ok := true
+	var walkB func(b *ssa.BasicBlock, seqs [][]string, steps int)
+	walkB = func(b *ssa.BasicBlock, seqs [][]string, steps int) {
+		if !ok || steps > 64 {
+			ok = false
+			return
+		}
+		for _, in := range b.Instrs {
+			switch x := in.(type) {
+			case ssa.CallInstruction:
+				if _, isDefer := in.(*ssa.Defer); isDefer {
+					continue
+				}
+				com := x.Common()
+				name := ""
+				var g *ssa.Function
+				if com.IsInvoke() {
+					name = com.Method.Name()
+					if name != "WriteByte" && name != "ReadByte" {
+						name = ""
+					}
+				} else if g = com.StaticCallee(); g != nil && g.Pkg != nil && g.Pkg.Pkg.Path() == pkgPath(thriftPkg) && g.Signature.Recv() != nil {
+					name = g.Name()
+				} else {
+					g = nil
+				}
+				if name == "" {
+					continue
+				}
+				if tok := primToken(name); tok != "" {
+					for i := range seqs {
+						seqs[i] = append(append([]string{}, seqs[i]...), tok)
+					}
+					continue
+				}
+				if g != nil && g != fn && g.Blocks != nil {
+					// an internal helper: splice in its sequences
+					sub, subOK := c.primSequences(g, depth-1)
+					if !subOK {
+						ok = false
+						return
+					}
+					if len(sub) == 0 {
+						continue
+					}
+					var next [][]string
+					for _, s := range seqs {
+						for _, t := range sub {
+							next = append(next, append(append([]string{}, s...), t...))
+						}
+					}
+					seqs = next
+					if len(seqs) > 256 {
+						ok = false
+						return
+					}
+				}
+			case *ssa.Return:
+				// error returns: an error result that is a constructed exception or a package-level error
+				for _, res := range x.Results {
+					if !types.Identical(res.Type(), errT) && !types.AssignableTo(res.Type(), errT) {
+						continue
+					}
+					for _, va := range resultValues(x, len(x.Results)-1) {
+						v := stripConv(va.Val)
+						if call, isCall := v.(*ssa.Call); isCall {
+							if h := staticCallee(call); h != nil && strings.HasPrefix(h.Name(), "NewTProtocolExceptionWithType") {
+								return
+							}
+						}
+						if ld, isLd := v.(*ssa.UnOp); isLd {
+							if _, isG := ld.X.(*ssa.Global); isG {
+								return
+							}
+						}
+					}
+					break
+				}
+				out = append(out, seqs...)
+				return
+			case *ssa.If:
+				// follow only the "no error" edge of a test of an error value against nil
+				op, a, bb, isCmp := cmpOf(x.Cond)
+				if isCmp && (op == token.NEQ || op == token.EQL) {
+					if isNilConst(a) {
+						a, bb = bb, a
+					}
+					if isNilConst(bb) && types.Identical(a.Type(), errT) {
+						idx := 1 // false edge of `err != nil`
+						if op == token.EQL {
+							idx = 0
+						}
+						walkB(b.Succs[idx], seqs, steps+1)
+						return
+					}
+				}
+				for _, s := range b.Succs {
+					cp := make([][]string, len(seqs))
+					copy(cp, seqs)
+					walkB(s, cp, steps+1)
+				}
+				return
+			case *ssa.Jump:
+				walkB(b.Succs[0], seqs, steps+1)
+				return
+			case *ssa.Panic:
+				return
+			}
+		}
+	}
+	walkB(fn.Blocks[0], [][]string{{}}, 0)
+	if len(out) > 512 {
+		return nil, false
+	}
+	return out, ok
+}
+
+func seqSet(seqs [][]string, binary bool) []string {
+	set := map[string]bool{}
+	for _, s := range seqs {
+		var n []string
+		for _, t := range s {
+			if binary && t == "str" {
+				n = append(n, "i32", "body") // a binary-protocol string is its i32 length and the body
+			} else {
+				n = append(n, t)
+			}
+		}
+		if len(n) > 0 {
+			set[strings.Join(n, " ")] = true
+		}
+	}
+	var out []string
+	for k := range set {
+		out = append(out, k)
+	}
+	sort.Strings(out)
+	return out
+}
+
+func (c *Ctx) checkHeaderSequences(rule string) {
+	n := 0
+	for _, proto := range []string{"TBinaryProtocol", "TCompactProtocol"} {
+		heads := []string{"FieldBegin", "ListBegin", "SetBegin", "MessageBegin"}
+		if proto == "TBinaryProtocol" {
+			heads = append(heads, "MapBegin")
+		}
+		for _, h := range heads {
+			wf, rf := c.fn(thriftPkg, proto, "Write"+h), c.fn(thriftPkg, proto, "Read"+h)
+			key := "thrift." + proto + ":" + h
+			if wf == nil || rf == nil {
+				c.missing(rule, "thrift."+proto+".Write"+h+" / Read"+h)
+				continue
+			}
+			n++
+			c.sawFunc(c.fnKey(wf))
+			c.sawFunc(c.fnKey(rf))
+			ws, okW := c.primSequences(wf, 3)
+			rs, okR := c.primSequences(rf, 3)
+			if h == "FieldBegin" {
+				// the reader's field header also reads the stop marker that WriteFieldStop writes
+				if sf := c.fn(thriftPkg, proto, "WriteFieldStop"); sf != nil {
+					ss, okS := c.primSequences(sf, 3)
+					ws, okW = append(ws, ss...), okW && okS
+				}
+			}
+			if !okW || !okR {
+				c.undecided(rule, key, wf.Pos(), "the header functions contain loops or too many paths for the sequence comparison")
+				continue
+			}
+			w, r := seqSet(ws, proto == "TBinaryProtocol"), seqSet(rs, proto == "TBinaryProtocol")
+			c.check(strings.Join(w, " | ") == strings.Join(r, " | "), rule, key, wf.Pos(), "written and read primitive sequences agree: "+strings.Join(w, " | "),
+				fmt.Sprintf("Write%s writes the primitive sequences {%s} but Read%s reads {%s}: the reader is out of step with the writer after this header", h, strings.Join(w, " | "), h, strings.Join(r, " | ")))
+		}
+	}
+	c.floor(rule, n, 9)
+}
+
+// checkCompactHeaderConstants (O6): the compact protocol packs small numbers into the header byte;
+// writer and reader must use the same split (high nibble = delta / size, low nibble = type, 15 = "a
+// varint follows").
+func (c *Ctx) checkCompactHeaderConstants(rule string) {
+	type spec struct {
+		fn   string
+		need []string
+		what string
+	}
+	n := 0
+	for _, sp := range []spec{
+		{"writeFieldBeginInternal", []string{"<<:4", "<=:15"}, "field id delta <= 15 in the high nibble"},
+		{"ReadFieldBegin", []string{"&:240", ">>:4", "&:15"}, "type in the low nibble, delta in the high nibble"},
+		{"writeCollectionBegin", []string{"<=:14", "<<:4", "|:240"}, "size <= 14 in the high nibble, 0xf0 announces a varint size"},
+		{"ReadListBegin", []string{">>:4", "&:15", "==:15"}, "size from the high nibble, 15 announces a varint size"},
+	} {
+		fn := c.fn(thriftPkg, "TCompactProtocol", sp.fn)
+		if fn == nil {
+			c.missing(rule, "thrift.TCompactProtocol."+sp.fn)
+			continue
+		}
+		n++
+		key := c.fnKey(fn)
+		c.sawFunc(key)
+		have := intConstsOf(fn)
+		var missing []string
+		for _, k := range sp.need {
+			if !have[k] {
+				missing = append(missing, k)
+			}
+		}
+		c.check(len(missing) == 0, rule, key, fn.Pos(), sp.what,
+			fmt.Sprintf("%s does not split the header byte the way its counterpart does (%s; missing operator:constant %v)", sp.fn, sp.what, missing))
+	}
+	// both sides advance lastFieldId on their success paths
+	fLast := c.field(thriftPkg, "TCompactProtocol", "lastFieldId")
+	for _, name := range []string{"writeFieldBeginInternal", "ReadFieldBegin"} {
+		fn := c.fn(thriftPkg, "TCompactProtocol", name)
+		if fn == nil || fLast == nil {
+			continue
+		}
+		stores := 0
+		instrsOf(fn, func(in ssa.Instruction) {
+			if st, ok := in.(*ssa.Store); ok {
+				if f, _ := addrField(st.Addr); f == fLast {
+					stores++
+				}
+			}
+		})
+		c.check(stores >= 1, rule, c.fnKey(fn)+":lastFieldId", fn.Pos(), "records the field id for the next delta", name+" does not record the field id: the next field's delta is computed against a stale id on one side only")
+	}
+	// struct begin / end keep the id stack the same way on both sides
+	for _, pair := range [][2]string{{"WriteStructBegin", "ReadStructBegin"}, {"WriteStructEnd", "ReadStructEnd"}} {
+		wf, rf := c.fn(thriftPkg, "TCompactProtocol", pair[0]), c.fn(thriftPkg, "TCompactProtocol", pair[1])
+		if wf == nil || rf == nil {
+			c.missing(rule, "thrift.TCompactProtocol."+pair[0]+" / "+pair[1])
+			continue
+		}
+		n++
+		sig := func(fn *ssa.Function) string {
+			var parts []string
+			instrsOf(fn, func(in ssa.Instruction) {
+				switch x := in.(type) {
+				case *ssa.Store:
+					if f, _ := addrField(x.Addr); f != nil {
+						parts = append(parts, "store:"+f.Name()+"="+fieldSym(x.Val, 4))
+					}
+				}
+			})
+			return strings.Join(parts, "; ")
+		}
+		ws, rs := sig(wf), sig(rf)
+		c.check(ws == rs && ws != "", rule, "thrift.TCompactProtocol:"+pair[0]+"/"+pair[1], wf.Pos(), "writer and reader maintain the field-id stack identically ("+ws+")",
+			fmt.Sprintf("%s does {%s} but %s does {%s}: the field-id stack (delta base) diverges between writer and reader in nested structs", pair[0], ws, pair[1], rs))
+	}
+	c.floor(rule, n, 6)
+}
+
+// fieldSym renders a value in terms of receiver fields, constants and simple operations.
+func fieldSym(v ssa.Value, depth int) string {
+	if depth == 0 {
+		return "?"
+	}
+	switch x := v.(type) {
+	case *ssa.Const:
+		if x.Value != nil {
+			return x.Value.ExactString()
+		}
+		return "nil"
+	case *ssa.UnOp:
+		if x.Op == token.MUL {
+			if f, _ := addrField(x.X); f != nil {
+				return f.Name()
+			}
+			if ia, ok := x.X.(*ssa.IndexAddr); ok {
+				return fieldSym(ia.X, depth-1) + "[" + fieldSym(ia.Index, depth-1) + "]"
+			}
+		}
+		return x.Op.String() + fieldSym(x.X, depth-1)
+	case *ssa.BinOp:
+		return "(" + fieldSym(x.X, depth-1) + x.Op.String() + fieldSym(x.Y, depth-1) + ")"
+	case *ssa.Call:
+		if isBuiltin(x, "len") || isBuiltin(x, "append") {
+			var as []string
+			for _, a := range x.Call.Args {
+				as = append(as, fieldSym(a, depth-1))
+			}
+			return x.Call.Value.Name() + "(" + strings.Join(as, ",") + ")"
+		}
+	case *ssa.Slice:
+		lo, hi := "", ""
+		if x.Low != nil {
+			lo = fieldSym(x.Low, depth-1)
+		}
+		if x.High != nil {
+			hi = fieldSym(x.High, depth-1)
+		}
+		return fieldSym(x.X, depth-1) + "[" + lo + ":" + hi + "]"
+	case *ssa.Convert:
+		return fieldSym(x.X, depth)
+	case *ssa.Alloc:
+		return "new"
+	}
+	return "?"
+}
